@@ -148,7 +148,65 @@ func (c *SpecCtx) resolveType(te *TypeExpr) types.Type {
 			}
 		}
 	}
+	// a type declared inside the function under verification (or the function enclosing a closure)
+	if c.vc != nil && c.vc.fn != nil {
+		top := c.vc.fn
+		for top.Parent() != nil {
+			top = top.Parent()
+		}
+		if t := localNamedType(top, te.Name, map[*ssa.Function]bool{}); t != nil {
+			return t
+		}
+	}
 	c.fail("unknown type %s", te.Name)
+	return nil
+}
+
+// localNamedType finds a named type declared inside fn (or its closures) by name, through the types of the values
+// the function computes (map keys and elements, slices, pointers included).
+func localNamedType(fn *ssa.Function, name string, seen map[*ssa.Function]bool) types.Type {
+	if seen[fn] {
+		return nil
+	}
+	seen[fn] = true
+	var found types.Type
+	var walk func(t types.Type, depth int)
+	walk = func(t types.Type, depth int) {
+		if found != nil || depth > 4 || t == nil {
+			return
+		}
+		switch u := t.(type) {
+		case *types.Named:
+			if u.Obj().Name() == name && u.Obj().Pkg() != nil && u.Obj().Parent() != u.Obj().Pkg().Scope() {
+				found = u
+			}
+		case *types.Pointer:
+			walk(u.Elem(), depth+1)
+		case *types.Slice:
+			walk(u.Elem(), depth+1)
+		case *types.Map:
+			walk(u.Key(), depth+1)
+			walk(u.Elem(), depth+1)
+		}
+	}
+	for _, b := range fn.Blocks {
+		for _, in := range b.Instrs {
+			if v, ok := in.(ssa.Value); ok {
+				walk(v.Type(), 0)
+			}
+		}
+	}
+	for _, fv := range fn.FreeVars {
+		walk(fv.Type(), 0)
+	}
+	if found != nil {
+		return found
+	}
+	for _, a := range fn.AnonFuncs {
+		if t := localNamedType(a, name, seen); t != nil {
+			return t
+		}
+	}
 	return nil
 }
 
@@ -1042,6 +1100,34 @@ func (c *SpecCtx) evalCall(e *ECall) Val {
 		c.enc().trusted["library contract: strings.TrimPrefix: s[len(p):] if HasPrefix(s,p) else s"] = true
 		sub := c.vc.strSub(sv.T, fmt.Sprintf("(strlen %s)", pv.T), fmt.Sprintf("(strlen %s)", sv.T))
 		return Val{T: fmt.Sprintf("(ite (strhasprefix %s %s) %s %s)", sv.T, pv.T, sub, sv.T), Typ: types.Typ[types.String]}
+	case "det":
+		// det("Func", k, args...): result k of a deterministic function of this package (value parameters and
+		// results only, see functional.go), as the same uninterpreted function the generator uses for calls of it
+		if len(e.Args) < 2 {
+			c.fail("det(name, k, args...)")
+		}
+		nlit, okn := e.Args[0].(*EStr)
+		kv := c.eval(e.Args[1])
+		if !okn || !kv.isConst() {
+			c.fail("det: name and result index must be constants")
+		}
+		k64, _ := constant.Int64Val(kv.Const)
+		var fn *ssa.Function
+		if c.pkg != nil {
+			fn = c.vc.prog.FindFunc(c.pkg.Path(), nlit.Val)
+		}
+		if fn == nil || !c.vc.prog.isFunctional(fn) || int(k64) >= fn.Signature.Results().Len() || len(e.Args)-2 != fn.Signature.Params().Len() {
+			c.fail("det: %s is not a deterministic value function of this package (or wrong arity / result index)", nlit.Val)
+		}
+		var sorts, ts []string
+		for i, a := range e.Args[2:] {
+			v := c.materialize(c.eval(a), fn.Signature.Params().At(i).Type())
+			sorts = append(sorts, enc.sortOf(v.Typ))
+			ts = append(ts, v.T)
+		}
+		name := strings.NewReplacer("/", "_", "(", "", ")", "", "*", "").Replace(fn.String())
+		rt := fn.Signature.Results().At(int(k64)).Type()
+		return Val{T: enc.uf(fmt.Sprintf("detfn.%s.%d", name, k64), sorts, enc.sortOf(rt), ts...), Typ: rt}
 	case "ext":
 		// ext("pkg.Func", k, args...): result k of a deterministic library function, as the same uninterpreted
 		// function the VC generator uses for calls of it
@@ -1093,6 +1179,28 @@ func (c *SpecCtx) evalCall(e *ECall) Val {
 			b = c.materialize(b, a.Typ)
 		}
 		return Val{T: fmt.Sprintf("(= %s %s)", a.T, b.T), Typ: boolT}
+	case "addr":
+		// addr(x): the address of a local variable that lives in memory (a captured or address-taken local)
+		id, isId := e.Args[0].(*EIdent)
+		if !isId {
+			c.fail("addr(x): x must be a variable name")
+		}
+		v, ok := c.lookup(id.Name)
+		if !ok {
+			c.fail("addr(%s): unknown variable", id.Name)
+		}
+		if v.Cell {
+			return Val{T: v.T, Typ: types.NewPointer(v.Typ)}
+		}
+		if _, isPtr := v.Typ.Underlying().(*types.Pointer); isPtr {
+			return v // a struct kept in memory is already denoted by its cell
+		}
+		c.fail("addr(%s): the variable does not live in memory", id.Name)
+	case "inarray":
+		// inarray(p, s): pointer p points into the backing array of slice s
+		pv := c.eval(e.Args[0])
+		sv := c.eval(e.Args[1])
+		return Val{T: fmt.Sprintf("(= %s %s)", pObj(pv.T), sArr(sv.T)), Typ: boolT}
 	case "same_array":
 		// same_array(a, b): the two slices share their backing array
 		a := c.eval(e.Args[0])
